@@ -103,12 +103,27 @@ VDRIVE_OP(faincl)
 VDRIVE_OP(faop)
 {
 	std::string kind = c.at("kind").get<std::string>();
-	FA a = MakeFA(c.at("A"));
 	json res;
+	// "preA" / "preB": the operand is first put through another operation (results of operations are operands too);
+	// the intermediate value is logged as A1 / B1 and the contract is judged on it
+	auto prep = [&res](const json& j, const std::string& pre, const char* key) -> FA {
+		FA x = MakeFA(j);
+		if (pre.empty() || pre == "none") { return x; }
+		SetStage(("pre-op " + pre).c_str());
+		FA y = (pre == "reverse") ? x.Reverse()
+			: (pre == "unreach") ? x.RemoveUnreachableStates()
+			: (pre == "useless") ? x.RemoveUselessStates()
+			: (pre == "witness") ? x.GetCandidateTree()
+			: (pre == "copy") ? FA(x)
+			: throw std::runtime_error("vdrive: bad pre-op");
+		res[key] = ReadFA(y);
+		return y;
+	};
+	FA a = prep(c.at("A"), c.value("preA", ""), "A1");
 	bool binary = (kind == "union" || kind == "uniondisj" || kind == "isect");
 	if (binary)
 	{
-		FA b = MakeFA(c.at("B"));
+		FA b = prep(c.at("B"), c.value("preB", ""), "B1");
 		SetStage(kind.c_str());
 		if (kind == "union")
 		{
@@ -147,5 +162,80 @@ VDRIVE_OP(faop)
 	}
 	SetStage("readback");
 	res["A_after"] = ReadFA(a);
+	return res;
+}
+
+// ---------------------------------------------------------------- agreement arm for C09
+// {"op":"faagree","seed":S,"count":N}: random NFA pairs generated here, the three selections run on each (each pair
+// under its own alarm-free loop: a hang kills the batch and the supervisor reports it); only pairs on which the
+// selections disagree come back, one "faincl" event per selection, for TLC.
+#include <random>
+namespace {
+json randNfa(std::mt19937& rng, size_t nq, size_t ne, size_t nsym, size_t base)
+{
+	static const char* SY[3] = {"a", "b", "c"};
+	json delta = json::array();
+	for (size_t i = 0; i < ne; ++i) { delta.push_back(json::array({base + rng() % nq, SY[rng() % nsym], base + rng() % nq})); }
+	json start = json::array(), fin = json::array();
+	for (size_t q = 0; q < nq; ++q) { if (rng() % 100 < 35) { start.push_back(base + q); } if (rng() % 100 < 35) { fin.push_back(base + q); } }
+	if (start.empty()) { start.push_back(base + rng() % nq); }
+	if (fin.empty()) { fin.push_back(base + rng() % nq); }
+	json a;
+	a["start"] = start; a["fin"] = fin; a["delta"] = delta;
+	return a;
+}
+}
+
+VDRIVE_OP(faagree)
+{
+	std::mt19937 rng(c.at("seed").get<unsigned>());
+	size_t count = c.at("count").get<size_t>();
+	json disagree = json::array();
+	size_t noninc = 0;
+	for (size_t i = 0; i < count; ++i)
+	{
+		size_t nsym = 1 + rng() % 3;
+		json ja = randNfa(rng, 1 + rng() % 5, rng() % 10, nsym, (rng() % 2) ? 0 : 2);
+		json jb = randNfa(rng, 1 + rng() % 5, rng() % 12, nsym, (rng() % 2) ? 0 : 10);
+		SetStage(("faagree pair " + std::to_string(i) + " of seed " + std::to_string(c.at("seed").get<unsigned>())).c_str());
+		FA a = MakeFA(ja);
+		FA b = MakeFA(jb);
+		std::string v[3];
+		const char* names[3] = {"anti", "cd", "cb"};
+		for (int k = 0; k < 3; ++k)
+		{
+			InclParam ip;
+			if (k == 0) { ip.SetAlgorithm(InclParam::e_algorithm::antichains); }
+			else
+			{
+				ip.SetAlgorithm(InclParam::e_algorithm::congruences);
+				ip.SetSearchOrder(k == 2 ? InclParam::e_search_order::breadth : InclParam::e_search_order::depth);
+			}
+			ip.SetUseSimulation(false);
+			try { v[k] = FA::CheckInclusion(a, b, ip) ? "T" : "F"; }
+			catch (const std::exception& e) { v[k] = "X:" + ExcName(e); }
+		}
+		if (v[0] == "F") { ++noninc; }
+		if ((v[0] != v[1] || v[1] != v[2] || v[0].size() != 1) && disagree.size() < 30)
+		{
+			for (int k = 0; k < 3; ++k)
+			{
+				json ev;
+				ev["op"] = "faincl"; ev["sel"] = names[k]; ev["A"] = ja; ev["B"] = jb; ev["outcome"] = "ok";
+				ev["src"] = "fa-agreement-arm";
+				ev["id"] = json::array({"faagree", c.at("seed"), i});
+				json r;
+				r["v"] = v[k];
+				r["A_after"] = ReadFA(a);
+				r["B_after"] = ReadFA(b);
+				ev["res"] = r;
+				disagree.push_back(ev);
+			}
+		}
+	}
+	json res;
+	res["count"] = count;
+	res["nonincluded"] = noninc;
+	res["disagree"] = disagree;
 	return res;
 }
